@@ -239,7 +239,11 @@ func registerVP(p *Program) {
 		return nil
 	})
 	reg("Assert", func(m *Machine, fr *Frame, fn *ssa.Function, a []Value) Value {
-		m.obligation("assert", cstr(a[1]), a[0].(*Term), fr)
+		m.obligation("assert", cstr(a[1])+m.labelSuffix, a[0].(*Term), fr)
+		return nil
+	})
+	reg("Region", func(m *Machine, fr *Frame, fn *ssa.Function, a []Value) Value {
+		m.labelSuffix = cstr(a[0])
 		return nil
 	})
 	reg("Note", func(m *Machine, fr *Frame, fn *ssa.Function, a []Value) Value {
